@@ -5,41 +5,41 @@ package main
 
 func init() {
 	register("C01", "Decided: register / no-operand / condition-code / hand-written-form tables against the SDM, prefix predicates, mode configuration of every operand object, immediate width provenance, prefix independence from immediate magnitude, emission-time mode. Not decided: that form selection picks the right form for a concrete operand combination.",
-		ruleT1, ruleT1e, ruleT2, ruleT3, ruleT4d, ruleT5, ruleF8size, ruleP3, ruleF1, ruleF7, ruleE5, ruleI1, ruleI1s, ruleE1, ruleE1b, ruleE3, ruleE3s, ruleT18acc, ruleS66, ruleM7, ruleT5u, ruleU8p, ruleT6, ruleH7k, ruleZ18)
+		ruleT1, ruleT1e, ruleT2, ruleT3, ruleT4d, ruleT5, ruleF8size, ruleP3, ruleF1, ruleF7, ruleE5, ruleI1, ruleI1s, ruleE1, ruleE1b, ruleE3, ruleE3s, ruleT18acc, ruleS66, ruleM7, ruleT5u, ruleU8p, ruleT6, ruleH7k, ruleZ18, ruleS6s)
 	register("C02", "Decided: ModR/M and SIB tables, special cases, displacement thresholds, SIB presence, consumption of every parsed address component, operator handling in the operand grammar, 67h predicate, agreement of the pass-1 displacement/SIB sizing. Not decided: the path-sensitive composition of the calculator's branches.",
-		ruleT6, ruleQ2, ruleE8, ruleG2, ruleT1, ruleT1e, ruleI1, ruleP3, ruleZ3, ruleZ3b, ruleD2, ruleK18p, ruleF8size, ruleM2, ruleE1, ruleE1b, ruleE3, ruleE3s, ruleS16l)
+		ruleT6, ruleQ2, ruleE8, ruleG2, ruleT1, ruleT1e, ruleI1, ruleP3, ruleZ3, ruleZ3b, ruleD2, ruleK18p, ruleF8size, ruleM2, ruleE1, ruleE1b, ruleE3, ruleE3s, ruleS16l, ruleS6s)
 	register("C03", "Decided: advance-iff-emit on every handler path, constant size rules vs emitter lengths, size-model terms and prefix predicates, data-directive lockstep, label/$ = LOC, pass-2 hand-over. Not decided: equality of the two size computations on every operand value.",
-		ruleP8, ruleW3, ruleS3, ruleS3e, ruleF8size, ruleZ3, ruleP7, ruleP7e, ruleF2, ruleN5, ruleP5, ruleP3, ruleF8a, ruleM2, ruleZ3b, ruleO3, ruleC2P, ruleF8o, ruleS3j, ruleZ3c, ruleF6, ruleE1, ruleE1b, ruleE3, ruleE3s, ruleU8p, ruleS3f, ruleS16l, ruleA18)
+		ruleP8, ruleW3, ruleS3, ruleS3e, ruleF8size, ruleZ3, ruleP7, ruleP7e, ruleF2, ruleN5, ruleP5, ruleP3, ruleF8a, ruleM2, ruleZ3b, ruleO3, ruleC2P, ruleF8o, ruleS3j, ruleZ3c, ruleF6, ruleE1, ruleE1b, ruleE3, ruleE3s, ruleU8p, ruleS3f, ruleS16l, ruleA18, ruleD2, ruleP6, ruleG16l, ruleS17f)
 	register("C04", "Decided: condition codes, opcode bytes, length-adjusted displacement, range test on the narrowed value, little-endian fields, origin in the current address, mode guards. Not decided: that pass 1 leaves the target where the emitter assumes it.",
-		ruleT3, ruleT3k, ruleBranch, ruleI1, ruleF6, ruleS3, ruleS3e, ruleS3j, ruleE1, ruleE1b, ruleE3, ruleE3s, ruleU8p, ruleU7, ruleS3f, ruleZ4)
+		ruleT3, ruleT3k, ruleBranch, ruleI1, ruleF6, ruleS3, ruleS3e, ruleS3j, ruleE1, ruleE1b, ruleE3, ruleE3s, ruleU8p, ruleU7, ruleS3f, ruleZ4, ruleF5)
 	register("C05", "Decided: per-clause lockstep of size and emitted elements, lane order, decimal hand-off, RESB flow, non-emitting statements, every operand clause contributes or diagnoses, ALIGNB address basis.",
 		ruleP7, ruleP7e, ruleF2, ruleN5, ruleP2b, ruleP8, ruleW3, ruleE10, ruleF6, ruleO3, ruleT7, ruleT7h, ruleS5s, ruleE1, ruleE1b, ruleE3, ruleE3s, ruleL14r)
 	register("C06", "Decided: precedence layering of the grammar, operator table of the evaluator, literal bases. Not decided: 64-bit overflow semantics.",
-		ruleT7, ruleT7b, ruleT10Expr, ruleG2, ruleE3, ruleE3s, ruleR6, ruleI1t, ruleI1, ruleK6, ruleZ3b, ruleD13z, ruleT7h, ruleE10, ruleO6, ruleG6p)
+		ruleT7, ruleT7b, ruleT10Expr, ruleG2, ruleE3, ruleE3s, ruleR6, ruleI1t, ruleI1, ruleK6, ruleZ3b, ruleD13z, ruleT7h, ruleE10, ruleO6, ruleG6p, ruleD2, ruleD13m)
 	register("C07", "Decided: every handler return emits, delegates or diagnoses at >= warning (level decided from colog's own table plus the CLI's AddHeader calls); Emit failures are never lost; data-directive clauses; code-generation handlers.",
-		ruleT11, ruleE7, ruleP2, ruleP2g, ruleP2b, ruleP2c, ruleU7, ruleT4d, ruleM7, ruleE7d, ruleP7, ruleD13z, ruleE7e, ruleT6, ruleL19, ruleH7k)
+		ruleT11, ruleE7, ruleP2, ruleP2g, ruleP2b, ruleP2c, ruleU7, ruleT4d, ruleM7, ruleE7d, ruleP7, ruleD13z, ruleE7e, ruleT6, ruleL19, ruleH7k, ruleF1, ruleD13m)
 	register("C08", "Decided: record layouts and constants, capture-then-write ordering, symbol/aux counts, string table. Not decided: acceptance by an independent COFF reader.",
-		ruleT8, ruleP4, ruleS15, ruleE1, ruleE1b, ruleN8, ruleBoundedCopy, ruleP6)
+		ruleT8, ruleP4, ruleS15, ruleE1, ruleE1b, ruleN8, ruleBoundedCopy, ruleP6, ruleO19w)
 	register("C09", "Decided: same code in both formats, membership-tested symbol lists, stable name-blind ordering, inline-name threshold, bounded name copies.",
 		ruleE9, ruleSymSort, ruleS9c, ruleF4, ruleBoundedCopy, ruleT8, ruleS15, ruleW3, ruleN5, ruleE1, ruleE1b, ruleC9cfg, ruleR9, ruleS9p)
 	register("C10", "Decided: no post-init writes of package-level state, no map iteration / clock / random / environment / goroutines reachable from an assembly, truncating output, single image write. Third-party packages are trusted.",
-		ruleE1, ruleE1b, ruleE1c, ruleE2, ruleE3, ruleE3s, ruleP6, ruleF2, ruleEmitLoop)
+		ruleE1, ruleE1b, ruleE1c, ruleE2, ruleE3, ruleE3s, ruleP6, ruleF2, ruleEmitLoop, ruleO19, ruleO19w)
 	register("C11", "Decided: the EQU clause stores the evaluated body under the identifier's own text and emits nothing; handlers get evaluated operands; lookups are re-evaluated at the use site. Not decided: equivalence with textual inlining for bodies containing `$`.",
-		ruleE10, ruleF3, ruleE3, ruleE3s, ruleO3, ruleR6, ruleT10k, ruleK6, ruleE10m, ruleE1, ruleE1b, ruleE1c, ruleO6)
+		ruleE10, ruleF3, ruleE3, ruleE3s, ruleO3, ruleR6, ruleT10k, ruleK6, ruleE10m, ruleE1, ruleE1b, ruleE1c, ruleO6, ruleN11s, ruleW11)
 	register("C12", "Decided: layout attributes of the extracted grammar. Not decided: language equivalence under re-layout.",
 		ruleT10Layout, ruleT10a, ruleL19, ruleT10k, ruleT10c)
 	register("C13", "Decided for gosk's own code: explicit crash primitives reachable from the entry points and parser panic recovery; every constant and variable index, slice expression and forced type assertion; integer division; computed and input-sized make lengths; Must helpers; recursion through the EQU table; bracket nesting depth of the grammar. Not decided: nil dereferences, panics inside generated parsers and third-party modules, the complexity clause.",
-		ruleE6, ruleD13, ruleX13, ruleM13, ruleR13, ruleI13, ruleA13, ruleV13, ruleE6m, ruleM13b, ruleG13, ruleL13, ruleK13, ruleP13r, ruleN13ok)
+		ruleE6, ruleD13, ruleX13, ruleM13, ruleR13, ruleI13, ruleA13, ruleV13, ruleE6m, ruleM13b, ruleG13, ruleL13, ruleK13, ruleP13r, ruleN13ok, ruleN13if, ruleN13c)
 	register("C14", "Decided: emission-time context vs traversal-time writers, no package-level writes after init, append-only ocode list, unconditional forward emission loop.",
-		ruleE5, ruleE1, ruleE1b, ruleE3, ruleE3s, ruleEmitLoop, ruleP7, ruleP8, ruleM17w, ruleE10, ruleL14r)
+		ruleE5, ruleE1, ruleE1b, ruleE3, ruleE3s, ruleEmitLoop, ruleP7, ruleP8, ruleM17w, ruleE10, ruleL14r, ruleL14a, ruleO3)
 	register("C15", "Decided: symbol keys are exact identifier text, tables are never iterated, symbol ordering ignores names.",
 		ruleF5, ruleE2, ruleSymSort, ruleU7, ruleS15, ruleY16, ruleB15, ruleE10, ruleT10k, ruleN15, ruleN15b, ruleN15r, ruleN15g, ruleE1, ruleE1b, ruleE1c)
 	register("C16", "Decided: the origin chain from ORG to every address computation.",
-		ruleF6, ruleP5, ruleY16, ruleBranch, ruleSetters, ruleC2P, ruleP7, ruleW3, ruleN5, ruleO3, ruleW4o, ruleS3j, ruleS16l)
+		ruleF6, ruleP5, ruleY16, ruleBranch, ruleSetters, ruleC2P, ruleP7, ruleW3, ruleN5, ruleO3, ruleW4o, ruleS3j, ruleS16l, ruleG16l)
 	register("C17", "Decided: default modes, BITS table, mode configuration of every operand object, emission-time mode vs traversal-time writer (known finding).",
-		ruleE5, ruleModeDefaults, ruleM17w, ruleV17, ruleO3, ruleC9cfg, ruleZ3c, ruleF8size, ruleP3, ruleBranch, ruleSetters, ruleE3, ruleA18, ruleT1e)
+		ruleE5, ruleModeDefaults, ruleM17w, ruleV17, ruleO3, ruleC9cfg, ruleZ3c, ruleF8size, ruleP3, ruleBranch, ruleSetters, ruleE3, ruleA18, ruleT1e, ruleS17f)
 	register("C18", "Decided: comparator orientation/order, sign-extendable set, canonical signed-8 tests, shared table query flags, hand-written short forms. Not decided: minimality for every operand combination.",
-		ruleF8c, ruleF8irr, ruleF8a, ruleI1, ruleI1s, ruleT5, ruleK18, ruleA18, ruleT18acc, ruleT5u, ruleE1, ruleE1b, ruleE3, ruleE3s, ruleF1, ruleF8size, ruleF8q, ruleD2, ruleK18p, ruleT6, ruleZ18)
+		ruleF8c, ruleF8irr, ruleF8a, ruleI1, ruleI1s, ruleT5, ruleK18, ruleA18, ruleT18acc, ruleT5u, ruleE1, ruleE1b, ruleE3, ruleE3s, ruleF1, ruleF8size, ruleF8q, ruleD2, ruleK18p, ruleT6, ruleZ18, ruleZ18b, ruleK18m)
 	register("C19", "Decided: exit-code table, open flags, no failing exit after a successful write. Not decided: the Shift_JIS / UTF-8 decoding clause.",
-		ruleT9, ruleP6, ruleO19, ruleL19)
+		ruleT9, ruleP6, ruleO19, ruleL19, ruleL19s, ruleO19w)
 }
